@@ -632,6 +632,10 @@ class Interp:
         return iter(self.iterate(v, node))
 
     def binop(self, op, a, b, node):
+        if isinstance(op, ast.Pow) and isinstance(a, int) and isinstance(b, int) and not isinstance(a, bool) and abs(a) > 1 and abs(b) > 100000:
+            raise Unrecognised(self.rule, 'integer power beyond the evaluation bound', self.mod.rel)
+        if isinstance(op, ast.LShift) and isinstance(b, int) and b > 1000000:
+            raise Unrecognised(self.rule, 'shift beyond the evaluation bound', self.mod.rel)
         setlike = (ASet, set, frozenset, AKeys)
         if isinstance(op, (ast.Sub, ast.BitOr, ast.BitAnd, ast.BitXor)) and isinstance(a, setlike) and isinstance(b, setlike):
             sa_, sb_ = (set(x.s) if isinstance(x, ASet) else set(x) for x in (a, b))
@@ -659,6 +663,8 @@ class Interp:
                 pass
             except ZeroDivisionError:
                 raise RaiseSig('ZeroDivisionError', ('division by zero',), node)
+            except (OverflowError, ValueError) as exc:
+                raise RaiseSig(type(exc).__name__, (str(exc),), node)
         if isinstance(a, Sym) or isinstance(b, Sym) or isinstance(a, ALine) or isinstance(b, ALine):
             return Sym('binop', type(op).__name__, a, b)
         if isinstance(a, AList) and isinstance(b, AList) and isinstance(op, ast.Add):
@@ -1166,7 +1172,7 @@ class Interp:
             base = self.eval(f.value, env)
             args = self.eval_args(e, env)
             if e.keywords and not (isinstance(base, tuple) and base and base[0] in ('module', 'hostattr')) and not (isinstance(base, AList) and f.attr == 'sort') \
-                    and not isinstance(base, (Sym, AObj)) and not getattr(base, '_host_object', False):
+                    and not isinstance(base, (Sym, AObj, ARegex)) and not getattr(base, '_host_object', False):
                 self.bad(e, 'keyword arguments in a method call')
             self._kwargs = {}
             for kw in e.keywords:
@@ -1700,6 +1706,15 @@ class Interp:
         if isinstance(base, ARegex) and m in ('match', 'search', 'fullmatch', 'sub', 'split', 'findall') and args and \
                 isinstance(args[1] if m == 'sub' and len(args) > 1 else args[0], str):
             rx = self.host_regex(base, e)
+            kw = dict(getattr(self, '_kwargs', None) or {})
+            self._kwargs = {}
+            if kw:
+                if m == 'sub' and set(kw) <= {'count'} and isinstance(kw.get('count', 0), int):
+                    args = list(args[:2]) + [kw.get('count', 0)]
+                elif m == 'split' and set(kw) <= {'maxsplit'} and isinstance(kw.get('maxsplit', 0), int):
+                    args = list(args[:1]) + [kw.get('maxsplit', 0)]
+                else:
+                    self.bad(e, f'keyword arguments of regex method {m}')
             if m == 'sub' and not isinstance(args[0], str):
                 fn = args[0]
 
@@ -1715,7 +1730,11 @@ class Interp:
                 r = getattr(rx, m)(*args)
                 return None if r is None else CMatch(r, base)
             if m == 'sub':
-                return rx.sub(args[0], args[1], *[a for a in args[2:] if isinstance(a, int)])
+                import re as _re
+                try:
+                    return rx.sub(args[0], args[1], *[a for a in args[2:] if isinstance(a, int)])
+                except (_re.error, IndexError) as exc:
+                    raise RaiseSig('re.error', (str(exc),), e)
             if m == 'split':
                 return AList(rx.split(args[0], *[a for a in args[1:] if isinstance(a, int)]))
             return AList([x if isinstance(x, str) else tuple(x) for x in rx.findall(args[0])])
@@ -1849,6 +1868,25 @@ class Interp:
             if m == 'insert':
                 base.l.insert(args[0], args[1])
                 return None
+            if m in ('index', 'count', 'remove') and args:
+                # host equality (==) of the searched value with each element
+                lo = args[1] if len(args) > 1 else 0
+                hi = args[2] if len(args) > 2 else len(base.l)
+                if m != 'index' and len(args) > 1:
+                    self.bad(e, f'list.{m} with extra arguments')
+                if any(isinstance(x, float) for x in (lo, hi)):
+                    raise RaiseSig('TypeError', ('slice indices must be integers',), e)
+                if not all(isinstance(x, int) for x in (lo, hi)):
+                    self.bad(e, 'list.index bounds')
+                hits = [i for i in range(*slice(lo, hi).indices(len(base.l))) if self.compare(ast.Eq(), base.l[i], args[0], e)]
+                if m == 'count':
+                    return len(hits)
+                if not hits:
+                    raise RaiseSig('ValueError', (f'{args[0]!r} is not in list',), e)
+                if m == 'remove':
+                    del base.l[hits[0]]
+                    return None
+                return hits[0]
             if m == 'copy':
                 return AList(base.l)
             if m == 'sort' and not args:
@@ -2232,13 +2270,39 @@ class Interp:
                 env[p] = self.eval(defaults[di], {})
         if _is_generator(node):
             return AGen(self, node, env)
+        # decorators: memoisation is state (modelled exactly: the cache is keyed by host equality / hash of the arguments); context-manager, static / class method and
+        # wraps decorators do not change what a direct call computes; anything else is not modelled
+        memo = None
+        for d in getattr(node, 'decorator_list', []):
+            t = norm(d.func if isinstance(d, ast.Call) else d)
+            if t in ('functools.lru_cache', 'lru_cache', 'functools.cache', 'cache'):
+                typed = isinstance(d, ast.Call) and any(k.arg == 'typed' and isinstance(k.value, ast.Constant) and k.value.value for k in d.keywords)
+                memo = self.__dict__.setdefault('_memo', {}).setdefault(id(node), {})
+                vals = [env[p] for p in params]
+                if not all(v is None or isinstance(v, (bool, int, float, str, tuple, frozenset)) for v in vals):
+                    raise RaiseSig('TypeError', ('unhashable argument of a memoised function',), at) if any(isinstance(v, (AList, ADict, ASet)) for v in vals) else \
+                        Unrecognised(self.rule, f'memoised function {node.name} called with an abstract argument', self.mod.rel)
+                key = tuple(vals) + (tuple(type(v) for v in vals) if typed else ())
+                if key in memo:
+                    return memo[key]
+                memo = (memo, key)
+            elif t in ('contextlib.contextmanager', 'contextmanager', 'staticmethod', 'classmethod', 'functools.wraps'):
+                continue
+            elif t in ('property',):
+                continue
+            else:
+                raise Unrecognised(self.rule, f'function {node.name} has the decorator {t}, which is not modelled', self.mod.rel)
         self.depth += 1
         try:
             self.exec_block(node.body, env)
         except ReturnSig as r:
+            if memo is not None:
+                memo[0][memo[1]] = r.value
             return r.value
         finally:
             self.depth -= 1
+        if memo is not None:
+            memo[0][memo[1]] = None
         return None
 
 
